@@ -70,6 +70,20 @@ pub fn fast_baby_bear() -> BabyBearConfig {
     StarkConfig::new(pcs, challenger)
 }
 
+/// KoalaBear twin of [`fast_baby_bear`].
+pub fn fast_koala_bear() -> p3_circuit_prover::config::KoalaBearConfig {
+    let perm = p3_koala_bear::default_koalabear_poseidon2_16();
+    let hash = PaddingFreeSponge::<_, 16, 8, 8>::new(perm.clone());
+    let compress = TruncatedPermutation::<_, 2, 8, 16>::new(perm.clone());
+    let val_mmcs = MerkleTreeMmcs::new(hash, compress, 3);
+    let challenge_mmcs = ExtensionMmcs::new(val_mmcs.clone());
+    let dft = Radix2DitParallel::default();
+    let fri_params = FriParameters::new_testing(challenge_mmcs, 0);
+    let pcs = TwoAdicFriPcs::new(dft, val_mmcs, fri_params);
+    let challenger = DuplexChallenger::new(perm);
+    StarkConfig::new(pcs, challenger)
+}
+
 /// Base-field (D = 1) BabyBear: prepare, prove, verify.
 pub fn prove_verify_bb1(
     circuit: &Circuit<BabyBear>,
